@@ -56,9 +56,15 @@ ChordLinks(e1, e2, q) == [i \in 1..5 |-> LET p == ChordPairs[q[i]]
                                          IN [u |-> p[1], v |-> p[2], len |-> (PosC(1)[p[2]][1] - PosC(1)[p[1]][1]) + ex, speed |-> 1, extra |-> ex]]
 ChordCases == {[kind |-> "route", pos |-> PosC(1), links |-> ChordLinks(40, e2, q), opt |-> o, from |-> QPt(1, fr), to |-> QPt(1, tt)] :
                   e2 \in {2, 6}, q \in {x \in Perm5 : (x[1] + 2 * x[2] + 3 * x[3]) % MC = 0}, o \in {"time", "distance"}, fr \in {1, 4}, tt \in {1, 4}}
+(* histories: the query is also asked while the network is still being built (after the first 2 or 3 AddLink calls of the
+   4-cycle, after the first 4 of the chord family); the answer after the last AddLink has to be the same as without *)
+WithPre == {[kind |-> x.kind, pos |-> x.pos, links |-> x.links, opt |-> x.opt, from |-> x.from, to |-> x.to, pre |-> p] :
+               x \in {y \in CycleThin : (y.links[1].u + y.links[2].v + y.links[3].len) % 3 = 0}, p \in {2, 3}}
+           \cup {[kind |-> x.kind, pos |-> x.pos, links |-> x.links, opt |-> x.opt, from |-> x.from, to |-> x.to, pre |-> 4] :
+               x \in {y \in ChordCases : y.from # y.to}}
 GenInit == /\ net = 0 /\ opt = 0 /\ s = 0 /\ t = 0 /\ open = {} /\ closed = {} /\ g = 0 /\ phase = "gen"
            /\ c \in {x \in Cases : x.from # x.to /\ NearestUnique(x.pos, x.links, x.from) /\ NearestUnique(x.pos, x.links, x.to)
-                                   /\ (x.from[1] * 3 + x.to[1] * 5 + x.from[2]) % 4 = 0} \cup CycleThin \cup {x \in ChordCases : x.from # x.to}
+                                   /\ (x.from[1] * 3 + x.to[1] * 5 + x.from[2]) % 4 = 0} \cup CycleThin \cup {x \in ChordCases : x.from # x.to} \cup WithPre
            /\ PrintT(ToJson(c))
 GenSpec == GenInit /\ [][UNCHANGED <<vars, c>>]_<<vars, c>>
 =============================================================================
